@@ -214,6 +214,31 @@ Definition get_submodel (w : world) (m : mid) (names : path) : option mid :=
 Definition get_parameter1 (w : world) (m : mid) (nm : name) : option pid := find_kv nm (param_kv (getm w m)).
 Definition get_submodel1 (w : world) (m : mid) (nm : name) : option mid := find_kv nm (submodel_kv (getm w m)).
 
+(* ---- Model::load (model.cc:16-48), the part that belongs to the registry: for every key of
+   the file in file order, `params.find(key)` in get_all_parameters(); an unknown key throws
+   (what was loaded before stays), otherwise load_inner runs on the Parameter found.
+   [R] = whatever a file holds per key; the result is the sequence of (Parameter, record)
+   assignments performed and whether the loop completed. *)
+Fixpoint map_find (k : path) (l : list (path * pid)) : option pid :=   (* std::map::find *)
+  match l with
+  | [] => None
+  | (k', p) :: r => match path_cmp k k' with Eq => Some p | _ => map_find k r end
+  end.
+Fixpoint load_keys {R} (params : list (path * pid)) (file : list (path * R)) : option unit * list (pid * R) :=
+  match file with
+  | [] => (Some tt, [])
+  | (k, r) :: rest =>
+    match map_find k params with
+    | None => (None, [])
+    | Some p => let (res, asg) := load_keys params rest in (res, (p, r) :: asg)
+    end
+  end.
+Definition model_load_plan {R} (w : world) (m : mid) (file : list (path * R)) : option unit * list (pid * R) :=
+  match get_all_parameters w m with
+  | None => (None, [])
+  | Some params => load_keys params file
+  end.
+
 (* ---- Optimizer: params_ (unordered_set) and, as ghost state, the list of parameters on
    which configure_parameter has completed.  [okp p] = configure_parameter(p) does not
    throw (SGD: always; optimizers with statistics: iff p.valid()). *)
